@@ -21,9 +21,10 @@ import (
 
 // Op is one parked seam operation.
 type Op struct {
-	Key     string // canonical name, never derived from goroutine ids
-	gid     int
-	release chan any
+	Key      string // canonical name, never derived from goroutine ids
+	Epilogue bool   // parked after wg.Done / wg.Wait (sync shim), not at an environment seam
+	gid      int
+	release  chan any
 }
 
 // Scheduler coordinates one controlled call.
@@ -32,13 +33,15 @@ type Scheduler struct {
 	parked map[int]*Op
 	buf    []byte
 	known  map[int]bool // goroutines already identified as descendants of the caller
+	last   map[int]string // goroutine -> key of the last seam operation it parked at (names its epilogue operations)
+	caller int
 	lastN  int
 	// LastDump is the goroutine dump on which the last quiescence verdict was based.
 	LastDump string
 }
 
 func New() *Scheduler {
-	return &Scheduler{parked: map[int]*Op{}, buf: make([]byte, 1<<20), known: map[int]bool{}}
+	return &Scheduler{parked: map[int]*Op{}, buf: make([]byte, 1<<20), known: map[int]bool{}, last: map[int]string{}}
 }
 
 var gidRe = regexp.MustCompile(`^goroutine (\d+) \[([^\]]+)\]`)
@@ -59,6 +62,27 @@ func (s *Scheduler) Park(key string) any {
 	op := &Op{Key: key, gid: GID(), release: make(chan any, 1)}
 	s.mu.Lock()
 	s.parked[op.gid] = op
+	s.last[op.gid] = key
+	s.mu.Unlock()
+	return <-op.release
+}
+
+// ParkEpilogue parks the calling goroutine at a synchronisation epilogue (after wg.Done / after wg.Wait). The operation is named
+// after the last seam operation of that goroutine, or "caller" for the goroutine that runs the call.
+func (s *Scheduler) ParkEpilogue(kind string) any {
+	g := GID()
+	s.mu.Lock()
+	who, ok := s.last[g]
+	if !ok {
+		who = "no-seam"
+	}
+	if g == s.caller {
+		who = "caller"
+	}
+	s.mu.Unlock()
+	op := &Op{Key: kind + "@" + who, gid: g, release: make(chan any, 1), Epilogue: true}
+	s.mu.Lock()
+	s.parked[g] = op
 	s.mu.Unlock()
 	return <-op.release
 }
@@ -228,6 +252,9 @@ func (s *Scheduler) Run(call func(), decide func(parked []*Op) (int, any)) Repor
 		done <- p
 	}()
 	callerG := <-started
+	s.mu.Lock()
+	s.caller = callerG
+	s.mu.Unlock()
 	returned := false
 	for {
 		alive := s.WaitQuiescent(callerG)
@@ -244,6 +271,18 @@ func (s *Scheduler) Run(call func(), decide func(parked []*Op) (int, any)) Repor
 		}
 		parked := s.Parked()
 		if returned {
+			// a goroutine parked right after its wg.Done() has nothing of the library's left to do unless the library is wrong: let
+			// those run first (a send on an already closed channel then kills the process, which the crash containment reports)
+			epi := false
+			for _, p := range parked {
+				if p.Epilogue {
+					s.Release(p, Abort{})
+					epi = true
+				}
+			}
+			if epi {
+				continue
+			}
 			// anything still alive below the caller is a leak
 			for _, p := range parked {
 				rep.Leaked = append(rep.Leaked, "parked:"+p.Key)
